@@ -19,7 +19,11 @@ class TealLabel(TealComponent):
         return self.label
 
     def assemble(self) -> str:
-        comment = "\n// {}\n".format(self.comment) if self.comment is not None else ""
+        comment = ""
+        if self.comment is not None:
+            # one comment line per line of the text: a subroutine name may contain line breaks
+            lines = self.comment.splitlines() or [""]
+            comment = "\n{}\n".format("\n".join("// {}".format(ln) for ln in lines))
         return "{}{}:".format(comment, self.label.getLabel())
 
     def __repr__(self) -> str:
